@@ -1,3 +1,5 @@
 import Proofs.C01
 import Proofs.C05
 import Proofs.C13
+import Proofs.C13Behaviour
+import Proofs.C13Check
